@@ -256,7 +256,7 @@ func drivers(quick bool) []conc.Driver {
 	for _, p := range pcs {
 		add(fmt.Sprintf("processor-w%d-c%d-b%d-n%d-e%d", p.w, p.c, p.b, p.n, p.e), processor(p.w, p.c, p.b, p.n, p.e))
 	}
-	sizes, threads, chunks := []int{0, 1, 3}, []int{1, 2}, []int{1, 2}
+	sizes, threads, chunks := []int{0, 1, 3}, []int{1, 2}, []int{1, 2, 4}
 	if !quick {
 		sizes, threads, chunks = []int{0, 1, 3, 4}, []int{1, 2, 3}, []int{1, 2, 4}
 	}
